@@ -10,7 +10,7 @@ from skeleton import P, pid_name
 
 RERUN_ON_CONFIGS = ("dfm", "std")
 LEVEL = "other"
-RULE_TEXT = ("C11-W: is_whitespace denotes exactly {0..=9} U {11..=32} (set equality over all 256 bytes) and every "
+RULE_TEXT = ("C11-R covers the whole of run, the statements in front of the unit loop included (the buffer as given). C11-W: is_whitespace denotes exactly {0..=9} U {11..=32} (set equality over all 256 bytes) and every "
              "white-space recogniser in the grammar is that one; C11-P: the success skeleton of parse (sequence of "
              "sub-parser applications along the remainder chain of every Ok path) is exactly "
              "ws? ( NL | header '?'? (ws args?)? ws? (NL | ';') ), separators are ws? ',' ws? and ws? ':' ws?, with "
@@ -214,13 +214,17 @@ def rule_R(ck, lib, rid="C11-R"):
         return
     S = pathsum.strip_sites
     inp_ids = {rs.input_id}
+    # the buffer as it was given (before the unit loop): the byte-slice parameters of run
+    rb = lib.body(runsum.RUN)
+    slice_params = {p_.get("name") for p_ in (rb or {}).get("params", []) if p_.get("k") == "Bind" and "[u8]" in (p_.get("ty") or "")}
 
     def is_input(t):
         t = S(t)
         while isinstance(t, tuple) and t and t[0] == "call" and t[1].split("::")[-1] in ("iter", "as_ref", "as_slice", "borrow") and len(t[2]) == 1:
             t = t[2][0]
         # the input itself, or what parse left of it (the remainder behind the unit)
-        return isinstance(t, tuple) and len(t) > 1 and ((t[0] in ("loopvar", "local") and t[1] in inp_ids) or t == S(rs.input_arg) or (rs.rem is not None and t == S(rs.rem)))
+        return isinstance(t, tuple) and len(t) > 1 and ((t[0] in ("loopvar", "local") and t[1] in inp_ids) or t == S(rs.input_arg) or (rs.rem is not None and t == S(rs.rem))
+                                                        or (t[0] == "param" and t[1] in slice_params))
     bad = {}
     n = 0
     for x in rs.exits:
